@@ -63,6 +63,20 @@ for p in props:
             elif m['benign']: verdict='silent (as required)' if m['ok'] else '**FALSE ALARM**'
             else: verdict='caught' if m['ok'] else '**not caught**'
             out.append('* %s — %s. %s'%(d,verdict,desc))
-out.append('\n'+open(V+'/design/tail.md').read().replace('{NFIX}',str(len(fixes))).replace('{FIXLIST}','\n'.join('* `%s` %s'%(h,s) for h,s in fixes)))
+# totals of the self-test tables
+ncaught=nlive=nbenign=0
+for p in props:
+    ms=json.load(open('%s/evidence/%s.json'%(V,p['id'])))['coverage'].get('mutation_selftest',{})
+    for m in ms.get('results',[]):
+        if not m['applicable']: continue
+        if m['benign']:
+            nbenign+=1 if m['ok'] else 0
+        else:
+            mp='%s/%s/meta.json'%(V,m['name'])
+            if os.path.exists(mp) and json.load(open(mp)).get('static_expected') is False: continue
+            nlive+=1; ncaught+=1 if m['ok'] else 0
+tail=open(V+'/design/tail.md').read().replace('{NFIX}',str(len(fixes))).replace('{FIXLIST}','\n'.join('* `%s` %s'%(h,s) for h,s in fixes))
+tail=tail.replace('{NCAUGHT}',str(ncaught)).replace('{NLIVE}',str(nlive)).replace('{NMISSED}',str(nlive-ncaught)).replace('{NBENIGN}',str(nbenign))
+out.append('\n'+tail)
 open(V+'/DESIGN.md','w').write('\n'.join(out))
 print('DESIGN.md written: %d lines'%len('\n'.join(out).splitlines()))
